@@ -52,7 +52,11 @@ class HierDriver(explore.Driver):
     name = "hierarchy-history"
 
     def __init__(self, levels=3, seed=0, noapply=True, manual_ids=(0, 1),
-                 root="dict", scratch=None):
+                 root="dict", scratch=None, focus=None):
+        # focus="temp": a reduced alphabet (two windows on the root, no
+        # manual edits) in which (re-)assigning the temporary feature and
+        # the frame-rate change cost no deviation
+        self.focus = focus
         self.levels = levels      # number of datasets incl. root
         self.seed = seed
         self.noapply = noapply
@@ -62,7 +66,8 @@ class HierDriver(explore.Driver):
         self._rootfile = None
 
     def config(self):
-        return {"levels": self.levels, "seed": self.seed, "root": self.root}
+        return {"levels": self.levels, "seed": self.seed, "root": self.root,
+                "focus": self.focus}
 
     def _root_path(self, data):
         """The hdf5 root is written once per process and opened per state."""
@@ -131,16 +136,17 @@ class HierDriver(explore.Driver):
     def ops(self, st):
         out = []
         edits = []
-        for L in range(self.levels):
-            for w in ("A", "B", "C", "D", None):
+        tf = self.focus == "temp"
+        for L in range(1 if tf else self.levels):
+            for w in (("A", None) if tf else ("A", "B", "C", "D", None)):
                 if st.window[L] != w:
                     edits.append((["range", L, w], 0))
-        edits.append((["fps"], 1))
+        edits.append((["fps"], 0 if tf else 1))
         if st.synced:
             idx, filt = self.root_idx(st)
             for L in range(self.levels):
                 ri = idx[L]
-                for i in self.manual_ids:
+                for i in (() if tf else self.manual_ids):
                     if i < len(ri):
                         r = int(ri[i])
                         if r in st.excl[L]:
@@ -154,7 +160,7 @@ class HierDriver(explore.Driver):
                         edits.append((["manual", L, i], 0))
                 if len(ri):
                     for v in (0, 1):
-                        edits.append((["temp", L, v], 1))
+                        edits.append((["temp", L, v], 0 if tf else 1))
         for op, dev in edits:
             out.append((op + ["refresh"], dev))
             if self.noapply:
@@ -368,7 +374,10 @@ def run(ctx):
                                          manual_ids=(0,), **hd), 3, 0),
                 ("3-levels-refresh-only",
                  HierDriver(levels=3, seed=ctx.seed, noapply=False,
-                            manual_ids=(0,)), 4, 0)]
+                            manual_ids=(0,)), 4, 0),
+                ("3-levels-temp-focus",
+                 HierDriver(levels=3, seed=ctx.seed, noapply=False,
+                            focus="temp"), 3, 0)]
     else:
         plan = [("3-levels", HierDriver(levels=3, seed=ctx.seed), 4, 2),
                 ("hdf5-root", HierDriver(levels=3, noapply=False, **hd),
@@ -377,7 +386,10 @@ def run(ctx):
                  HierDriver(levels=3, seed=ctx.seed, noapply=False), 5, 1),
                 ("4-levels-refresh-only",
                  HierDriver(levels=4, seed=ctx.seed, noapply=False,
-                            manual_ids=(0,)), 4, 0)]
+                            manual_ids=(0,)), 4, 0),
+                ("3-levels-temp-focus",
+                 HierDriver(levels=3, seed=ctx.seed, noapply=True,
+                            focus="temp"), 4, 1)]
     for name, drv, depth, dev in plan:
         stats, vs = explore.bfs(drv, max_depth=depth, max_dev=dev,
                                 log=ctx.log)
@@ -404,5 +416,6 @@ def run(ctx):
 def replay(case, ctx):
     c = case["config"]
     drv = HierDriver(levels=c["levels"], seed=c["seed"],
-                     root=c.get("root", "dict"), scratch=ctx.scratch)
+                     root=c.get("root", "dict"), scratch=ctx.scratch,
+                     focus=c.get("focus"))
     return explore.replay(drv, case)
